@@ -1,0 +1,30 @@
+//go:build verif
+
+package dnsmsg
+
+// Contracts for govc (see /verif/DESIGN.md).  Comment-only file.  The
+// predicates lowBound, lowBoundUpTo, validRRs and the ghost lastLowest are
+// declared in internal/dnsserver/cache's contract file (same algorithm).
+
+//@ import dns github.com/miekg/dns
+
+//@ func getTTLIfLower
+//@   property C04
+//@   requires ref(r) != 0
+//@   ensures res <= ttl && (isOPT(r) ==> res == ttl) && (!isOPT(r) ==> res <= hdrOf(r).Ttl)
+
+//@ func FindLowestTTL
+//@   property C04
+//@   requires msg != nil && validRRs(msg.Answer) && validRRs(msg.Ns) && validRRs(msg.Extra)
+//@   modifies lastLowest
+//@   ghostset lastLowest = ttl
+//@   ensures lastLowest == ttl
+//@   ensures never-above-any-record: lowBound(msg.Answer, ttl) && lowBound(msg.Ns, ttl) && lowBound(msg.Extra, ttl)
+//@   ensures servfail-short-lived: msg.Rcode == 2 ==> ttl <= 30
+//@   loop 1 invariant -1 <= #i && #i < 3 && ttl <= 4294967295
+//@   loop 1 invariant (#i >= 0 ==> lowBound(msg.Answer, ttl)) && (#i >= 1 ==> lowBound(msg.Ns, ttl)) && (#i >= 2 ==> lowBound(msg.Extra, ttl))
+//@   loop 2 invariant -1 <= #i && #i < len(rrs) && validRRs(rrs)
+//@   loop 2 invariant -1 <= #i1 && #i1 + 1 < 3 && ttl <= 4294967295
+//@   loop 2 invariant (#i1 + 1 == 0 ==> rrs == msg.Answer) && (#i1 + 1 == 1 ==> rrs == msg.Ns) && (#i1 + 1 == 2 ==> rrs == msg.Extra)
+//@   loop 2 invariant lowBoundUpTo(rrs, #i, ttl)
+//@   loop 2 invariant (#i1 + 1 >= 1 ==> lowBound(msg.Answer, ttl)) && (#i1 + 1 >= 2 ==> lowBound(msg.Ns, ttl))
